@@ -51,6 +51,90 @@ def register(OPS, drv):
             pbase.BaseGopherProtocol.writedir = orig_writedir
             w.close()
 
+    def op_history(job):
+        """ONE World in ONE process: steps
+             {op: req, requests: [{data, tls}]}
+             {op: write|remove, path, data, keep_mtime}
+           keep_mtime: the rewritten file gets the mtime it (or its predecessor at that path) had, and
+           the directory that holds it gets its previous mtime back, as cp -p / rsync -t / tar do."""
+        import os
+        from pygopherd.protocols import gopherp
+        w = drv.World(job)
+        orig_render = gopherp.GopherPlusProtocol.renderobjinfo
+        rendered = []
+
+        def rec_render(self, entry):
+            rendered.append(dump_entry(entry))
+            return orig_render(self, entry)
+
+        gopherp.GopherPlusProtocol.renderobjinfo = rec_render
+        try:
+            broot = os.fsencode(w.root)
+            last = {}
+            out = []
+            for st in job["steps"]:
+                if st["op"] == "req":
+                    res = []
+                    for r in st["requests"]:
+                        del rendered[:]
+                        o = drv.serve_once(w.config, drv.s2b(r["data"]), tls=r.get("tls", False))
+                        res.append({"out": o["out"], "exc": o["exc"], "log": o["log"][-3:], "rendered": list(rendered)})
+                    out.append({"results": res})
+                    continue
+                p = os.path.join(broot, drv.s2b(st["path"]))
+                d = os.path.dirname(p)
+                dbefore = os.stat(d)
+                if os.path.lexists(p):
+                    fs = os.stat(p)
+                    last[p] = (fs.st_atime_ns, fs.st_mtime_ns)
+                if st["op"] == "write":
+                    with open(p, "wb") as f:
+                        f.write(drv.s2b(st.get("data", "")))
+                    if st.get("keep_mtime") and p in last:
+                        os.utime(p, ns=last[p])
+                elif st["op"] == "remove":
+                    os.unlink(p)
+                else:
+                    raise ValueError("unknown step " + st["op"])
+                if st.get("keep_mtime"):
+                    os.utime(d, ns=(dbefore.st_atime_ns, dbefore.st_mtime_ns))
+                out.append({})
+            return {"steps": out}
+        finally:
+            gopherp.GopherPlusProtocol.renderobjinfo = orig_render
+            w.close()
+
+    def op_fresh(job):
+        """Reference answers: every tree state is served by a process that has never served anything
+        (a fork of this driver, which only runs c15_fresh jobs)."""
+        import json
+        import os
+        outs = []
+        for stt in job["states"]:
+            rfd, wfd = os.pipe()
+            pid = os.fork()
+            if pid == 0:
+                try:
+                    os.close(rfd)
+                    w = drv.World(stt)
+                    try:
+                        res = [drv.serve_once(w.config, drv.s2b(q["data"]), tls=q.get("tls", False))["out"]
+                               for q in stt["requests"]]
+                    finally:
+                        w.close()
+                    payload = json.dumps({"ok": True, "outs": res})
+                except BaseException as e:  # noqa
+                    payload = json.dumps({"ok": False, "err": repr(e)})
+                with os.fdopen(wfd, "w") as f:
+                    f.write(payload)
+                os._exit(0)
+            os.close(wfd)
+            with os.fdopen(rfd) as f:
+                data = f.read()
+            os.waitpid(pid, 0)
+            outs.append(json.loads(data))
+        return outs
+
     def op_splitlines(job):
         return [s.splitlines() for s in job["inputs"]]
 
@@ -79,6 +163,8 @@ def register(OPS, drv):
             drv.reset_lazies()
         return out
 
+    OPS["c15_history"] = op_history
+    OPS["c15_fresh"] = op_fresh
     OPS["c15_world"] = op_world
     OPS["c15_splitlines"] = op_splitlines
     OPS["c15_eavalue"] = op_eavalue
